@@ -442,6 +442,40 @@ func TestVerifTokenLimit(t *testing.T) {
 	}
 }
 
+// Denied requests are not failures of Redis: with the per-address breaker at its most
+// sensitive (its draw pinned low: it sheds as soon as its drop ratio is positive at all) and
+// Redis healthy throughout, any run of denied requests must leave the limiter on Redis and
+// the bucket arithmetic exact.
+func TestVerifTokenLimitDeniedIsNotFailure(t *testing.T) {
+	defer vrt.WriteReport()
+	limSetup()
+	if !vrt.Shard(9) {
+		return
+	}
+	for _, c := range []struct{ rate, burst int }{{1, 2}, {2, 3}} {
+		c := c
+		ops := []string{"allow:1", fmt.Sprintf("allow:%d", c.burst), "deny10", "t1"}
+		vrt.BFS(vrt.Options{Name: fmt.Sprintf("tokenlimit/denied-is-not-failure/rate=%d/burst=%d", c.rate, c.burst), Budget: vrt.FairBudget(2)}, 5, ops, func(r *vrt.Run, hist []string) vrt.Step {
+			vrt.SetRandHook(func() (int64, bool) { return 0, true })
+			s := &tlSys{r: r, s: freshServer(r), rate: c.rate, burst: c.burst, up: true}
+			s.l = NewTokenLimiter(c.rate, c.burst, redis.New(s.s.Addr()), "tl")
+			for _, op := range hist {
+				if op == "deny10" {
+					for i := 0; i < 10 && !r.Failed(); i++ {
+						s.allow(c.burst + 1)
+					}
+				} else if !s.apply(op) {
+					return vrt.Step{}
+				}
+				if r.Failed() {
+					return vrt.Step{Canon: "failed"}
+				}
+			}
+			return vrt.Step{Canon: s.canon()}
+		})
+	}
+}
+
 // one real outage (stopped TCP server): the limiter must fall back, and go back to Redis
 // after the server returns (go-redis needs up to a real second to forget its cached dial error)
 func TestVerifTokenLimitRealOutage(t *testing.T) {
